@@ -110,6 +110,16 @@ func backSlice(v ssa.Value) *slice {
 			for _, b := range y.Bindings {
 				rec(b)
 			}
+		case *ssa.MakeMap:
+			// contents: every key/value stored into this map value
+			if refs := y.Referrers(); refs != nil {
+				for _, r := range *refs {
+					if mu, ok := r.(*ssa.MapUpdate); ok && mu.Map == ssa.Value(y) {
+						rec(mu.Key)
+						rec(mu.Value)
+					}
+				}
+			}
 		case *ssa.Alloc:
 			// a struct/array built in place: values stored into it (any field)
 			if refs := y.Referrers(); refs != nil {
